@@ -124,6 +124,13 @@ def cases(seed, tier):
         nticks = rng.randint(8, 12)
         fire_p = rng.choice([0.5, 0.75, 0.9, 0.97])
         scripts = gen_scripts(rng, rulesets, nticks, fire_p)
+        if i % 4 == 1 and not (nrs > 1 and i % 3 == 0):
+            # (not in the cases that are re-run one ruleset at a time: time others spend shifts absolute times)
+            # actions that take their time (virtual seconds pass inside run()): the pause starts when the chain STOPs, not when
+            # the tick began, and what one ruleset spends does not shorten another one's pause
+            for k in scripts:
+                if ".a" in k:
+                    scripts[k] = [(x + "+" + str(rng.choice([1, 2, 3]))) if x in ("S", "C") and rng.random() < 0.25 else x for x in scripts[k]]
         ticks = gen_ticks(rng, nticks)
         cid = "C02-%d-%d" % (seed, i)
         if i % 5 == 4 and not (nrs > 1 and i % 3 == 0):
